@@ -134,6 +134,13 @@ def gen_cases(rng, tier):
                     for i in range(r.randint(1, 3))]
             case["records"] = recs[:r.randint(0, 1)] + good
             case["prefail"] = {"at": len(case["records"]) - len(good), "how": r.choice(["surrogate", "unpackable"])}
+        elif 15 <= w < 17:
+            # a record type made with the copy constructor RecordDescriptor(new name, descriptor in use): its identifier is
+            # (new name, hash over the NEW name and the fields)
+            base_ = V.gen_descspec(r, types=types, nfields=r.randint(1, 3))
+            mkc = lambda: ["rec", ["clone/c" + str(r.below(3)), base_[1]], [V.gen_value(r, t_) for t_, _ in base_[1]],   # noqa: E731
+                           {"_generated": V.gen_dt_spec(r, tzkinds=("utc",), fold_ok=False), "_clone_of": base_[0]}]
+            case["records"] = recs[:r.randint(0, 1)] + [V.gen_record(r, descspec=base_, types=types)] + [mkc() for _ in range(r.randint(1, 2))]
         elif w < 15:
             # a grouped record written, one of its MEMBERS edited directly, the group written again: the second frame holds
             # the edited values
